@@ -75,3 +75,59 @@ let () =
               khex ^ "=" ^ String.concat "," vs) keys in
           obs "qparse ok %s" (if parts = [] then "-" else String.concat ";" parts))
     | _ -> failwith "qparse")
+
+(* the command line up to Execute (Model/Args.v) *)
+let () =
+  let hx l = if l = [] then "-" else hex_of_str l in
+  let arg_of_hex h = if h = "-" then [] else str_of_hex h in
+  let lay = function
+    | None -> "none"
+    | Some l -> String.concat "," (string_of_int (List.length l) :: List.concat_map (fun a -> [dec_of_z a.ai_step; dec_of_z a.ai_n]) l) in
+  let b v = if v then "true" else "false" in
+  let x32 z = Printf.sprintf "%08Lx" (u64_of_z z) in
+  register "cliargs" (fun tk -> match tk with
+    | _ :: sub :: rest ->
+      let pf_tok = List.find (fun t -> String.length t >= 3 && String.sub t 0 3 = "pf=") rest in
+      let hexargs = List.filter (fun t -> t != pf_tok) rest in
+      let pfs = String.split_on_char ',' (String.sub pf_tok 3 (String.length pf_tok - 3)) in
+      let args = List.map arg_of_hex hexargs in
+      (* the value part of an argument, as the driver took it for strconv.ParseFloat *)
+      let args_i = List.map (fun a -> List.map int_of_z a) args in
+      let value_of (a : int list) = match a with
+        | 45 :: _ -> (let rec after = function [] -> None | 61 :: r -> Some r | _ :: r -> after r in
+                      match after a with Some r -> r | None -> a)
+        | _ -> a in
+      let table = if pfs = ["-"] then [] else List.map2 (fun a pf -> (value_of a, pf)) args_i pfs in
+      let parse_f64 (v : z list) = match List.assoc_opt (List.map int_of_z v) table with
+        | Some "err" | None -> None
+        | Some h -> Some (z_of_hex h) in
+      let c = (match sub with
+          | "copy" -> CCopy | "diff" -> CDiff | "generate" -> CGenerate | "server" -> CServer | "sum" -> CSum
+          | "sum-copy" -> CSumCopy | "sum-diff" -> CSumDiff | "view" -> CView | "view-raw" -> CViewRaw
+          | _ -> failwith "cliargs: subcommand") in
+      (match parse_command parse_f64 fl_flag_xff c args with
+       | PExit2 -> obs "cliargs exit2"
+       | PHelp -> obs "cliargs help"
+       | PErr (Required f) -> obs "cliargs err required=%s" (String.concat "" (List.map (fun c -> String.make 1 (Char.chr (int_of_z c))) (flag_name f)))
+       | PErr DestBaseIsURL -> obs "cliargs err desturl"
+       | PErr DestWithMeta -> obs "cliargs err destmeta"
+       | PErr FromAfterUntil -> obs "cliargs err fromafteruntil"
+       | PRun o ->
+         let sb = "sb=" ^ hx o.o_src_base and s = "s=" ^ hx o.o_src and db = "db=" ^ hx o.o_dest_base and d = "d=" ^ hx o.o_dest
+         and item = "item=" ^ hx o.o_item and m = "m=" ^ dec_of_z o.o_method and x = "x=" ^ x32 o.o_xff and l = "lay=" ^ lay o.o_layout
+         and from = "from=" ^ dec_of_z o.o_from and until = "until=" ^ dec_of_z o.o_until and arch = "arch=" ^ dec_of_z o.o_archive
+         and to_ = "to=" ^ hx o.o_textout and cn = "cn=" ^ b o.o_copy_nan and hdr = "hdr=" ^ b o.o_header and sort = "sort=" ^ b o.o_sort
+         and perm = "perm=" ^ dec_of_z o.o_perm and mx = "max=" ^ dec_of_z o.o_max and fill = "fill=" ^ b o.o_fill
+         and addr = "addr=" ^ hx o.o_addr and base = "base=" ^ hx o.o_base in
+         let fields = (match c with
+             | CCopy -> [sb; s; db; d; m; x; l; from; until; arch; to_; cn]
+             | CDiff -> [sb; s; db; d; arch; to_; from; until]
+             | CGenerate -> [d; perm; m; x; l; mx; fill; to_]
+             | CServer -> [addr; base]
+             | CSum -> [sb; item; s; arch; to_; hdr; from; until]
+             | CSumCopy -> [sb; item; s; db; d; m; x; l; from; until; arch; to_]
+             | CSumDiff -> [sb; item; s; db; d; arch; to_; from; until]
+             | CView -> [sb; s; from; until; arch; to_; hdr]
+             | CViewRaw -> [sb; s; from; until; arch; hdr; sort; to_]) in
+         obs "cliargs run %s" (String.concat " " fields))
+    | _ -> failwith "cliargs")
